@@ -13,6 +13,9 @@
 (*   Canonical    a one-byte mutation decoding to the same value with the  *)
 (*                same length is impossible, except in padding bits (C03)  *)
 (*   DepthMem     MinDepth <= MaxDepth, HeapFree => HeapPayload = 0        *)
+(*   Concat       a value decoded from a concatenation ends exactly where  *)
+(*                the next encoding begins (C14)                           *)
+(*   ConsumeAll   DecExact accepts the encoding and no extension of it     *)
 (*                                                                         *)
 (* The machine: pick (ty, v); encode; walk the cut position k over the     *)
 (* encoding.  Invariants are evaluated at every cut.                       *)
@@ -76,6 +79,16 @@ HasBits(t) ==
 Canonical ==
   (k >= 1 /\ ~HasBits(ty) /\ ~HasHeap(env, ty)) =>
      LET d == Dec(env, ty, Mut(b, k), 0) IN ~(d.ok /\ d.v = v /\ d.p = Len(b))
+
+\* C14: a following encoding is found exactly behind this one; consume-all accepts the exact encoding only
+Concat ==
+  k = 0 => LET b2 == Enc(E0, TStr, <<97>>)
+               whole == b \o b2
+           IN /\ Dec(env, ty, whole, 0).p = Len(b)
+              /\ Dec(E0, TStr, whole, Len(b)) = Ok(<<97>>, Len(whole))
+ConsumeAll ==
+  k = 0 => /\ DecExact(env, ty, b).ok /\ DecExact(env, ty, b).v = v
+           /\ \A t \in Tails \ {<<>>} : ~DecExact(env, ty, b \o t).ok
 
 DepthMem ==
   k = 0 => /\ MinDepth(env, ty, v) <= MaxDepth(env, ty, v)
